@@ -3,6 +3,7 @@ package main
 import (
 	"fmt"
 	"go/token"
+	"go/types"
 	"strings"
 
 	"golang.org/x/tools/go/ssa"
@@ -11,7 +12,7 @@ import (
 func init() { register("C14", true, runC14) }
 
 func runC14(c *Check) {
-	c.Explanation = "Decides only structural clauses of C14 (which group of a pattern means what, and all value arithmetic, are out of static reach): for every legacy text pattern, the capture groups used after a match are within the arity of the pattern and every length test on a match equals groups+1, so a group added to or removed from a pattern cannot silently shift the fields that are read (R1); every legacy parser adds samples only by appending a new sample to the end of the list, so samples appear in input order (R2); every text parser's successful return passes through the trailing memory-map section parser, the binary CPU parser through ParseMemoryMap, the Java parsers through parseJavaLocations, and those always finish with location, function and mapping renumbering (R3). Not decided: values, scaling, address adjustment, label contents, mapping heuristics."
+	c.Explanation = "Decides only structural clauses of C14 (which group of a pattern means what, and all value arithmetic, are out of static reach): for every legacy text pattern, the capture groups used after a match are within the arity of the pattern and every length test on a match equals groups+1, so a group added to or removed from a pattern cannot silently shift the fields that are read (R1); every legacy parser adds samples only by appending a new sample to the end of the list, so samples appear in input order (R2); every text parser's successful return passes through the trailing memory-map section parser, the binary CPU parser through ParseMemoryMap, the Java parsers through parseJavaLocations, and those always finish with location, function and mapping renumbering (R3); the contention count's multiplication by the period does not depend on the cycle frequency (R4); no integer quotient is converted to floating point in the legacy scaling code (R5). Not decided: values, scaling, address adjustment, label contents, mapping heuristics."
 	p := c.P
 	g := newGuardEngine(p)
 	legacy := func(f *ssa.Function) bool {
@@ -201,6 +202,103 @@ func runC14(c *Check) {
 		} else {
 			c.bad("C14-R3", key, p.relFile(f.Pos()), mp.fn+" can return successfully without running "+mp.callee)
 		}
+	}
+	c.periodScaling()
+	c.floatQuotients(legacy)
+}
+
+// periodScaling (R4): contention counts are multiplied by the sampling period whenever a
+// period is given; only the conversion of delays to time needs the cycle frequency.  The
+// integer multiplication by the period in parseContentionSample must therefore be
+// reachable whatever the comparisons on the other (frequency) parameter decide.
+func (c *Check) periodScaling() {
+	p := c.P
+	f := c.anchorFn("C14-R4", "profile", "parseContentionSample")
+	if f == nil {
+		return
+	}
+	var ints []*ssa.Parameter
+	for _, pr := range f.Params {
+		if bt, ok := pr.Type().Underlying().(*types.Basic); ok && bt.Kind() == types.Int64 {
+			ints = append(ints, pr)
+		}
+	}
+	var mul *ssa.BinOp
+	var period *ssa.Parameter
+	for _, b := range f.Blocks {
+		for _, ins := range b.Instrs {
+			bo, ok := ins.(*ssa.BinOp)
+			if !ok || bo.Op != token.MUL {
+				continue
+			}
+			if bt, ok := bo.Type().Underlying().(*types.Basic); !ok || bt.Info()&types.IsInteger == 0 {
+				continue
+			}
+			for _, pr := range ints {
+				if bo.X == ssa.Value(pr) || bo.Y == ssa.Value(pr) {
+					mul, period = bo, pr
+				}
+			}
+		}
+	}
+	if mul == nil || len(ints) != 2 {
+		c.undecided("C14-R4", "period-scaling", p.relFile(f.Pos()), "integer multiplication of the contention count by the period parameter not found in parseContentionSample")
+		return
+	}
+	var other *ssa.Parameter
+	for _, pr := range ints {
+		if pr != period {
+			other = pr
+		}
+	}
+	for _, pol := range []int{1, -1} {
+		reach := reachUnder(f, func(cond ssa.Value) int {
+			if cmp, ok := cond.(*ssa.BinOp); ok && (cmp.X == ssa.Value(other) || cmp.Y == ssa.Value(other)) {
+				return pol
+			}
+			return 0
+		})
+		if !reach[mul.Block()] {
+			c.bad("C14-R4", "period-scaling", p.relFile(mul.Pos()), "parseContentionSample multiplies the contention count by "+period.Name()+" only for some values of "+other.Name()+": a profile that gives a sampling period but no cycle frequency keeps raw counts")
+			return
+		}
+	}
+	c.ok("C14-R4", "period-scaling", p.relFile(mul.Pos()), "the contention count is multiplied by the period independently of "+other.Name(), "the multiplication is reachable whichever way the comparisons on "+other.Name()+" go")
+}
+
+// floatQuotients (R5): the unsampling formulas are floating-point.  A value converted to
+// floating point in the legacy parsers is never the result of an integer division (which
+// would truncate the average object size before it enters 1/(1-exp(-size/rate))).
+func (c *Check) floatQuotients(legacy func(*ssa.Function) bool) {
+	p := c.P
+	n := 0
+	forAllPkgFuncs(p, "profile", func(f *ssa.Function) {
+		if !legacy(f) {
+			return
+		}
+		for _, b := range f.Blocks {
+			for _, ins := range b.Instrs {
+				cv, ok := ins.(*ssa.Convert)
+				if !ok {
+					continue
+				}
+				to, ok1 := cv.Type().Underlying().(*types.Basic)
+				from, ok2 := cv.X.Type().Underlying().(*types.Basic)
+				if !ok1 || !ok2 || to.Info()&types.IsFloat == 0 || from.Info()&types.IsInteger == 0 {
+					continue
+				}
+				n++
+				key := "float-quotient:" + fnName(f) + ":" + describeValue(cv.X)
+				if q, ok := cv.X.(*ssa.BinOp); ok && (q.Op == token.QUO || q.Op == token.REM) {
+					c.bad("C14-R5", key, p.relFile(cv.Pos()), fnName(f)+" converts the result of an integer division to floating point: the quotient is truncated before it enters the scaling formula (average object size in the heap unsampling), so unsampled counts and bytes are off for records whose bytes are not a multiple of their count")
+				} else {
+					c.ok("C14-R5", key, p.relFile(cv.Pos()), "integer converted to floating point before any division in "+fnName(f), "operand is not an integer quotient")
+				}
+			}
+		}
+	})
+	if n < 5 {
+		c.undecided("C14-R5", "float-quotient", "", fmt.Sprintf("expected the integer-to-float conversions of the legacy scaling code, found %d", n))
 	}
 }
 
